@@ -7,15 +7,18 @@ CONSTANTS MaxClasses,   \* class programs with 1..MaxClasses classes (every clas
           MaxOwn,       \* named parameters per def
           MaxHard,      \* hard-coded keyword arguments per forwarding call
           MaxPop,       \* kwargs.pop/get calls per def
-          Budget,       \* bound on the total weight of a program (named parameters + hard-coded names + pops + helpers)
+          PopClasses,   \* ... in programs with at most this many classes
+          B1, B2, B3, B4, B5,   \* Budgets[n]: bound on the total weight of a program with n classes (named parameters + hard-coded
+                        \* names + pops + helper functions + methods)
           MaxChain,     \* depth of the function chains that are components themselves
           FnOwn,        \* named parameters per function of such a chain
           EmitAllUpTo,  \* print every complete program with at most this many classes ...
-          Sel           \* ... and one in Sel of the larger ones (chosen by a hash of the program and the seed)
+          Sel,          \* ... and one in Sel of the larger ones (chosen by a hash of the program and the seed)
+          KeepGoing     \* TRUE: a failing clause is printed (<<"FAIL", clause, program>>) and the run goes on to find them all
 
+Budgets == <<B1, B2, B3, B4, B5>>
 Names == <<"a", "b", "c", "d">>
 NIdx  == 1..4
-U     == SetOf(Names) \cup {"z"}            \* "z" is declared nowhere: it can only die in an unused **kwargs
 Seed  == atoi(IOEnv.SEL_SEED)
 Pow2  == <<1, 2, 4, 8>>
 Mask(S) == FoldSet(LAMBDA x, acc : acc + Pow2[x], 0, S)
@@ -26,7 +29,9 @@ SmallSets(k) == {S \in SUBSET NIdx : Cardinality(S) <= k}
 \* the same name has different types at neighbouring levels; "b" is required at odd levels; "d" is never annotated
 TypeOf(i, x) == IF x = 4 THEN "none" ELSE IF (i + x) % 2 = 0 THEN "int" ELSE "str"
 DfltOf(i, x) == IF x = 2 /\ i % 2 = 1 THEN "req" ELSE "dflt"
-Params(i, S) == LET s == AscSeq(S) IN [k \in DOMAIN s |-> [n |-> Names[s[k]], t |-> TypeOf(i, s[k]), d |-> DfltOf(i, s[k])]]
+\* in the source required parameters come first (Python syntax), then by name
+Params(i, S) == LET s == AscSeq({x \in S : DfltOf(i, x) = "req"}) \o AscSeq({x \in S : DfltOf(i, x) # "req"})
+                IN [k \in DOMAIN s |-> [n |-> Names[s[k]], t |-> TypeOf(i, s[k]), d |-> DfltOf(i, s[k])]]
 NameSeq(S)   == LET s == AscSeq(S) IN [k \in DOMAIN s |-> Names[s[k]]]
 
 Fw(k, b, hard, q, qop, chain) == [k |-> k, b |-> b, hard |-> NameSeq(hard), q |-> NameSeq(q), qop |-> qop, chain |-> chain]
@@ -63,25 +68,32 @@ Build(i, bases, d) ==
                [] OTHER             -> Sig(i, d.own, TRUE, Fw(d.kind, d.b, d.hard, d.q, d.qop, << >>)),
    m     |-> IF d.mhas THEN Sig(i + 1, d.mown, FALSE, NoFwd) ELSE NoSig]
 
-\* the descriptors offered for class i with runtime ancestors anc (incl. itself), when `methUsed` says that the
-\* class or one of its ancestors calls self.m
-Descs(i, anc, methAbove, left) ==
-  LET fwdKinds == {"super0", "superB", "func", "meth"}
+\* every descriptor of the menu (a constant: TLC evaluates it once), indexed by weight so that a state only looks at
+\* the descriptors it can still afford
+AllDescs ==
+  LET one == SmallSets(IF MaxPop > 0 THEN 1 ELSE 0)
       core ==
            {Desc("noinit", {}, {}, {}, "pop", 0, 0, FALSE, {})}
       \cup {Desc("named", own, {}, {}, "pop", 0, 0, FALSE, {}) : own \in SmallSets(MaxOwn)}
       \cup {Desc("ignore", own, {}, q, qop, 0, 0, FALSE, {}) :
               own \in SmallSets(MaxOwn), q \in SmallSets(MaxPop), qop \in {"pop", "get"}}
       \cup {Desc(k, own, hard, q, "pop", 0, 0, FALSE, {}) :
-              k \in {"super0", "meth"}, own \in SmallSets(MaxOwn), hard \in SmallSets(MaxHard), q \in SmallSets(IF MaxPop > 0 THEN 1 ELSE 0)}
+              k \in {"super0", "meth"}, own \in SmallSets(MaxOwn), hard \in SmallSets(MaxHard), q \in one}
       \cup {Desc("superB", own, hard, q, "pop", b, 0, FALSE, {}) :
-              own \in SmallSets(MaxOwn), hard \in SmallSets(MaxHard), q \in SmallSets(IF MaxPop > 0 THEN 1 ELSE 0), b \in anc}
+              own \in SmallSets(MaxOwn), hard \in SmallSets(MaxHard), q \in one, b \in 1..MaxClasses}
       \cup {Desc("func", own, hard, q, "pop", 0, ch, FALSE, {}) :
-              own \in SmallSets(MaxOwn), hard \in SmallSets(MaxHard), q \in SmallSets(IF MaxPop > 0 THEN 1 ELSE 0), ch \in DOMAIN ChainMenu(i)}
-      sane == {d \in core : ~(d.qop = "get" /\ d.q = {}) /\ Weight(d) <= left}
-      \* a class defines m only where it matters: it calls self.m itself, or it overrides the m an ancestor calls
-      withM == {[d EXCEPT !.mhas = TRUE, !.mown = mo] : d \in {x \in sane : x.kind = "meth" \/ methAbove}, mo \in SmallSets(1)}
-  IN sane \cup {d \in withM : Weight(d) <= left}
+              own \in SmallSets(MaxOwn), hard \in SmallSets(MaxHard), q \in one, ch \in DOMAIN ChainWeight}
+      sane == {d \in core : ~(d.qop = "get" /\ d.q = {})}
+  IN sane \cup {[d EXCEPT !.mhas = TRUE, !.mown = mo] : d \in sane, mo \in SmallSets(1)}
+MaxWeight == B1 + B2 + B3 + B4 + B5
+DescsByWeight == [wt \in 0..MaxWeight |-> {d \in AllDescs : Weight(d) = wt}]
+\* the descriptors offered for class i with runtime ancestors anc (incl. itself) and `left` weight to spend.  A class
+\* defines m only where it matters: it calls self.m itself, or it overrides the m that an ancestor calls (methAbove)
+Descs(i, anc, methAbove, left, shp) ==
+  {d \in UNION {DescsByWeight[wt] : wt \in 0..left} :
+      /\ d.kind = "superB" => d.b \in anc
+      /\ d.mhas => (d.kind = "meth" \/ methAbove)
+      /\ d.q # {} => Len(shp) <= PopClasses}
 
 (* ---- shapes: base lists such that every class statement is legal and every class is an ancestor of the last one  *)
 BaseSeqs(i) == {<< >>} \cup {<<x>> : x \in 1..(i - 1)} \cup {<<x, y>> : x \in 1..(i - 1), y \in (1..(i - 1))}
@@ -117,7 +129,8 @@ Complete == IF IsClassProg THEN Len(cls) = Len(shape)
             ELSE Len(fn) > 0 /\ ~(fn[Len(fn)].kw /\ fn[Len(fn)].fw.k = "next")
 Comp == IF IsClassProg THEN [k |-> "cls", c |-> Len(cls), chain |-> << >>] ELSE [k |-> "fn", c |-> 0, chain |-> fn]
 \* the class on top of a prefix can be instantiated (a program whose classes cannot be constructed is not extended)
-TopCallable == Len(cls) = 0 \/ Callable(P, [k |-> "cls", c |-> Len(cls)], U)
+TopComp == [k |-> "cls", c |-> Len(cls), chain |-> << >>]
+TopCallable == IF Len(cls) = 0 THEN TRUE ELSE Callable(RunTable(P, TopComp, Universe(P, TopComp)))
 
 Init == /\ cls = << >> /\ h = 0 /\ w = 0 /\ fn = << >>
         /\ shape \in Shapes \cup {<< >>}
@@ -127,14 +140,14 @@ AddClass ==
   /\ LET i    == Len(cls) + 1
          anc  == SetOf(Mro(Sk(shape), i))
          above == \E c \in anc \ {i} : cls[c].init.has /\ cls[c].init.kw /\ cls[c].init.fw.k = "meth"
-     IN \E d \in Descs(i, anc, above, Budget - w) :
+     IN \E d \in Descs(i, anc, above, Budgets[Len(shape)] - w, shape) :
           /\ cls' = Append(cls, Build(i, shape[i], d))
           /\ h' = (h * 31 + Code(d)) % 65521
           /\ w' = w + Weight(d)
   /\ UNCHANGED <<shape, fn>>
 
 AddFn ==
-  /\ ~IsClassProg /\ (Len(fn) = 0 \/ (fn[Len(fn)].kw /\ fn[Len(fn)].fw.k = "next"))
+  /\ ~IsClassProg /\ (IF Len(fn) = 0 THEN TRUE ELSE (fn[Len(fn)].kw /\ fn[Len(fn)].fw.k = "next"))
   /\ LET j == Len(fn) + 1 IN
      \E d \in {x \in FnDescs(j) : FnSane(x)} :
           /\ fn' = Append(fn, FnBuild(j, d))
@@ -145,36 +158,43 @@ AddFn ==
 Next == AddClass \/ AddFn
 Spec == Init /\ [][Next]_vars
 
-(* ---- invariants                                                                                                    *)
-\* laws of the reference (Python's call semantics): keywords are routed independently, so "the set of legal
-\* keyword parameters" is well defined, each has one owner, and passing all of them at once is accepted
-RefLaws == Complete => /\ LawIndependent(P, Comp, U)
-                       /\ LawAllOffered(P, Comp, U)
-                       /\ LawOneOwner(P, Comp, U)
-                       /\ LawStableOwner(P, Comp, U)
-                       /\ LegalKw(P, Comp, U) \subseteq Accepted(P, Comp, U) /\ "z" \notin LegalKw(P, Comp, U)
-\* C13 at design level: outside the named deviations the resolver's algorithm offers exactly the legal parameters,
-\* each with the type and default of the signature it is bound in
-AlgRefinesRef == (Complete /\ Deviation(P, Comp) = "-") => C13Holds(P, Comp, U)
-\* a name hard-coded by the component's own def (and not declared by it) is never offered
-HardNotOffered ==
-  (Complete /\ IsClassProg /\ Callable(P, Comp, U)) =>
-     LET X == DefOf(P, Len(cls), "init") IN
-     X = 0 \/ ~cls[X].init.kw \/ cls[X].init.fw.k = "ignore" \/
-       \A n \in SetOf(cls[X].init.fw.hard) \ (NamesOf(cls[X].init.ps) \cup SetOf(cls[X].init.fw.q)) :
-           n \notin LegalKw(P, Comp, U) /\ (Deviation(P, Comp) = "-" => n \notin AlgNames(P, Comp))
-\* the deviations are real in the model (non-vacuity of the findings, counted through coverage): see DevSeen in the harness
+(* ---- the invariant: evaluated on every complete program; the call table is computed once                        *)
+Say(clause) == PrintT(ToJson([fail |-> clause, prog |-> P, comp |-> Comp, h |-> h])) /\ KeepGoing
+Selected == (IF IsClassProg THEN Len(cls) <= EmitAllUpTo ELSE Len(fn) <= 1) \/ (h + Seed) % Sel = 0
 
-Selected == Complete /\ ((IF IsClassProg THEN Len(cls) <= EmitAllUpTo ELSE Len(fn) <= 1) \/ (h + Seed) % Sel = 0)
-SetSeq(S) == SetToSeq(S)
-Expected ==
-  LET call == Callable(P, Comp, U) IN
-  [prog |-> P, comp |-> Comp, h |-> h, w |-> w, callable |-> call,
-   req   |-> IF call THEN SetSeq(Required(P, Comp, U)) ELSE << >>,
-   acc   |-> IF call THEN SetSeq(Accepted(P, Comp, U)) ELSE << >>,
-   offer |-> IF call THEN SetSeq(RefOffer(P, Comp, U)) ELSE << >>,
-   alg   |-> IF call THEN AlgResolve(P, Comp) ELSE << >>,
-   dev   |-> IF call THEN Deviation(P, Comp) ELSE "-",
-   holds |-> C13Holds(P, Comp, U)]
-EmitProgram == Selected => PrintT(ToJson(Expected))
+Inv ==
+  Complete =>
+  LET U    == Universe(P, Comp)
+      T    == RunTable(P, Comp, U)
+      call == Callable(T)
+      run  == AlgRun(P, Comp)
+      dev  == DevOf(run.ev)
+      ps   == run.ps
+      ref  == RefOffer(T)
+      X    == IF IsClassProg THEN DefOf(P, Len(cls), "init") ELSE 0
+      topHard == IF X = 0 \/ ~cls[X].init.kw \/ cls[X].init.fw.k = "ignore" THEN {}
+                 ELSE SetOf(cls[X].init.fw.hard) \ (NamesOf(cls[X].init.ps) \cup SetOf(cls[X].init.fw.q))
+  IN
+  \* laws of the reference (Python's call semantics): keywords are routed independently, so "the set of legal
+  \* keyword parameters" is well defined, each has one owner, and passing all of them at once is accepted
+  /\ LawIndependent(T) \/ Say("law-independent")
+  /\ LawAllOffered(T) \/ Say("law-all-offered")
+  /\ LawOneOwner(T) \/ Say("law-one-owner")
+  /\ LawStableOwner(T) \/ Say("law-stable-owner")
+  /\ (LegalKw(T) \subseteq Accepted(T) /\ "zz" \notin LegalKw(T)) \/ Say("law-legal-accepted")
+  \* a name hard-coded by the component's own def (and neither declared nor popped by it) can never be passed
+  /\ (~call \/ topHard \cap LegalKw(T) = {}) \/ Say("law-hard-not-legal")
+  \* C13 at design level: outside the named deviations the resolver's algorithm offers exactly the legal
+  \* parameters, each with the type and default of the signature it is bound in, and no hard-coded one
+  /\ (~call \/ dev # "-" \/ (NoDup(ps) /\ OfferAgrees(ref, OfferOf(ps)))) \/ Say("alg-refines-ref")
+  /\ (~call \/ dev # "-" \/ topHard \cap NamesOf(ps) = {}) \/ Say("alg-hard-not-offered")
+  \* the programs to replay on the real code, with what the specification expects of them
+  /\ Selected => PrintT(ToJson(
+       [prog |-> P, comp |-> Comp, h |-> h, w |-> w, callable |-> call, univ |-> SetToSeq(U),
+        req   |-> IF call THEN SetToSeq(Required(T)) ELSE << >>,
+        acc   |-> IF call THEN SetToSeq(Accepted(T)) ELSE << >>,
+        offer |-> IF call THEN SetToSeq(ref) ELSE << >>,
+        alg   |-> IF call THEN ps ELSE << >>,
+        dev   |-> IF call THEN dev ELSE "-",
+        holds |-> ~call \/ (NoDup(ps) /\ OfferAgrees(ref, OfferOf(ps)))]))
 =============================================================================
